@@ -13,6 +13,7 @@ EVIDENCE_DIR = os.environ.get("J2M_EVIDENCE_DIR") or os.path.join(VERIF, "eviden
 DISCHARGED = "discharged"
 ALLOWED = "allowed"
 VIOLATED = "violated"
+WITHHELD = "withheld"
 
 
 @dataclass
@@ -50,6 +51,7 @@ class RuleResult:
     analysed: List[str] = field(default_factory=list)  # functions / tables visited
     notes: List[str] = field(default_factory=list)
     stale_allow: List[str] = field(default_factory=list)
+    consulted: List[str] = field(default_factory=list)  # anchor functions the rule looked up by name (file::qualname)
 
     def ob(self, fi_or_file, qualname_or_node, text, statement, verdict, how="", line=0, witness=None,
            trivial=False) -> Obligation:
@@ -70,6 +72,7 @@ class Reporter:
         self.errors: List[str] = []
         self.t0 = time.time()
         self.extra: Dict[str, object] = {}
+        self.gate = None          # sa.shapegate.Gate, set by check.py once the program is loaded
 
     def add(self, rr: RuleResult):
         self.results.append(rr)
@@ -94,6 +97,21 @@ class Reporter:
                 if o.verdict == VIOLATED:
                     if o.key in known_keys and known_keys[o.key].get("property") in (self.prop, None):
                         known_hits.append(o)
+                        continue
+                    why = None
+                    if self.gate is not None:
+                        from .shapegate import SHAPE_INDEPENDENT
+                        if o.rule not in SHAPE_INDEPENDENT:
+                            why = self.gate.restructured(o.file, o.qualname, getattr(rr, "consulted", ()))
+                    if why:
+                        # the rule recognises a way of implementing the clause; on a restructured function its report is no
+                        # evidence of a defect: fail closed instead of raising an alarm
+                        o.verdict = WITHHELD
+                        o.how = f"{o.how} [verdict withheld: {why}]"
+                        msg = (f"rule {o.rule}: verdict withheld on {o.file}::{o.qualname} - {why}; the rule was validated on the "
+                               f"earlier shape and cannot tell a defect from a refactoring here (it reported: {o.how[:160]})")
+                        if msg not in self.errors:
+                            self.errors.append(msg)
                     else:
                         violations.append(o)
         lines = []
@@ -160,6 +178,9 @@ class Reporter:
             "analysis_errors": self.errors,
             "exhaustive": True,
         }
+        if self.gate is not None:
+            cov["shape_gate"] = self.gate.summary()
+            cov["shape_gate"]["verdicts_withheld"] = [o.as_json() for r in self.results for o in r.obligations if o.verdict == WITHHELD]
         cov.update(self.extra)
         ev = {
             "property_id": self.prop, "tier": self.tier, "seed": self.seed, "level": "other",
